@@ -106,10 +106,23 @@ func (p *Project) SourceFiles() map[string]string {
 	for _, e := range p.Enums {
 		a := get(e.Pkg, e.File)
 		fmt.Fprintf(&a.body, "type %s %s\n\nconst (\n", e.Name, e.Prim)
-		for i, v := range e.Values {
+		half := len(e.Values)
+		if e.SplitFile != "" && e.SplitFile != e.File {
+			half = (len(e.Values) + 1) / 2
+		}
+		for i, v := range e.Values[:half] {
 			fmt.Fprintf(&a.body, "\t%sV%d %s = %s\n", e.Name, i, e.Name, v)
 		}
 		a.body.WriteString(")\n\n")
+		if half < len(e.Values) {
+			// the remaining constants of the same enum type live in another file of the package
+			b := get(e.Pkg, e.SplitFile)
+			b.body.WriteString("const (\n")
+			for i, v := range e.Values[half:] {
+				fmt.Fprintf(&b.body, "\t%sV%d %s = %s\n", e.Name, half+i, e.Name, v)
+			}
+			b.body.WriteString(")\n\n")
+		}
 	}
 	for _, al := range p.Aliases {
 		a := get(al.Pkg, al.File)
@@ -298,10 +311,20 @@ func (p *Project) Config(o ConfigOpts) string {
 	type m = map[string]any
 	var schemes []m
 	for i, s := range p.Schemes {
-		if i%2 == 0 {
+		switch i % 3 {
+		case 0:
 			schemes = append(schemes, m{"description": "key " + s, "name": s, "fieldName": "x-" + s, "type": "apiKey", "in": "header"})
-		} else {
+		case 1:
 			schemes = append(schemes, m{"description": "bearer " + s, "name": s, "scheme": "bearer", "type": "http"})
+		default:
+			// oauth2 with several flows and several scopes each (scope maps are walked by the 3.1 emitter)
+			scopes := m{"read": "read things", "write": "write things", "admin": "administer", "other": "anything else"}
+			schemes = append(schemes, m{"description": "oauth " + s, "name": s, "type": "oauth2", "flows": m{
+				"implicit":          m{"authorizationUrl": "https://auth.example.com/authorize", "scopes": scopes},
+				"password":          m{"tokenUrl": "https://auth.example.com/token", "scopes": scopes},
+				"clientCredentials": m{"tokenUrl": "https://auth.example.com/token", "scopes": scopes},
+				"authorizationCode": m{"authorizationUrl": "https://auth.example.com/authorize", "tokenUrl": "https://auth.example.com/token", "scopes": scopes},
+			}})
 		}
 	}
 	oa := m{
